@@ -37,6 +37,8 @@ def generate(seed_: int, run: int, reactions: list[str]) -> dict:
         for _ in range(rng.randrange(0, 5)):
             ops.append(c06.gen_config_op(rng, slot, tag))
         ops.append({"op": "formulate", "b": slot})
+        if rng.random() < 0.15:
+            ops.append({"op": "touch_model", "b": slot, "last": rng.random() < 0.5})
         fp = tag in SMALL_RX and rng.random() < 0.4
         name = f"model{slot}.pkl"
         ops.append({"op": "dump", "b": slot, "file": name, "fingerprint": fp})
